@@ -95,7 +95,8 @@ class BrentsRootFinder:
         ), "Something went wrong"
 
         # Update interval
-        if self.fa * ordinate < 0:
+        # opposite signs; not tested with the product, which underflows for tiny ordinates
+        if (self.fa < 0 < ordinate) or (ordinate < 0 < self.fa):
             self.b, self.fb = abscissa, ordinate
         else:
             self.a, self.fa = abscissa, ordinate
